@@ -11,7 +11,7 @@ default body), every `impl … RandomAccessDeserializer for X` of serde_arrow/sr
 Here the same matrix is computed from the hand-written reader MODEL (`SaModel/Read/Reader.lean`): a reader family
 "implements" a typed read when `readAs` with the target that issues that `deserialize_*` call does not end in
 `notImpl` (the model's single rendering of the trait's default `Deserializer does not implement …`).  The two
-matrices must be equal (`gen_reader_matrix`, 49 readers × 22 call kinds, `decide +kernel` on finite tables; methods
+matrices must be equal (`gen_reader_matrix`, 49 readers × 24 call kinds (`calls`), `decide +kernel` on finite tables; methods
 are compared by position in the trait because string comparison is slow in the kernel).
 
   gen_trait            the defaults are what the model assumes: typed reads reject with
@@ -24,6 +24,8 @@ are compared by position in the trait because string comparison is slow in the k
                        defaults run at the enum (so a reader's own override of those is not reachable through it)
   gen_basics           every reader overrides `is_some` and `deserialize_any_some`; no reader overrides
                        `deserialize_identifier`, `deserialize_ignored_any`, `deserialize_newtype_struct`, `at`
+  gen_idx              the recorded positions `idx` of every impl are the positions of its method names in the trait
+  gen_serde_wiring     `impl Deserializer for PositionedDeserializer` calls the trait method of the same name
   gen_reader_matrix    Rust matrix = model matrix, for every arm of `ArrayDeserializer::new`
 -/
 namespace SaModel.Props.C02Gen
